@@ -42,6 +42,9 @@ EXTENDS Integers, Sequences, FiniteSets, TLC, Json, IOUtils
 Subjects == ndJsonDeserialize(IOEnv.C06_SUBJECTS)
 Mode     == IOEnv.C06_MODE
 MaxRun   == atoi(IOEnv.C06_MAXRUN)      \* Pending answers in a row (enum / sim)
+(* self-test only: "" = the specification; "drop" = Take loses a byte when it splits a chunk;  *)
+(* "forget" = a Pending answer makes the reader forget its partly filled request              *)
+Mutant   == IOEnv.C06_MUTANT
 
 NSubj == Len(Subjects)
 
@@ -87,7 +90,7 @@ Blocked  == Reading /\ buf = <<>> /\ Len(fill) < Need
 
 (* chunk sizes offered to a poll *)
 Ladder == {1, 2, 3, 4, 6, 8, 12, 16, 24, 32, 64, 128}
-ChunkChoices(rem) == IF Mode = "sim" THEN {k \in Ladder : k <= rem} \cup {rem} ELSE 1..rem
+ChunkChoices(rem) == IF Mode = "sim" THEN {k \in Ladder \cup {rem} : 1 <= k /\ k <= rem} ELSE 1..rem
 
 ---------------------------------------------------------------------------
 Fresh(s, e, c) ==
@@ -105,7 +108,7 @@ Init ==
 
 Deliver(k) ==
     /\ Blocked
-    /\ delivered + k <= Limit
+    /\ k >= 1 /\ delivered + k <= Limit
     /\ buf' = Range(delivered, k)
     /\ delivered' = delivered + k
     /\ pollState' = "ready"
@@ -120,7 +123,8 @@ ReturnPending ==
     /\ run' = IF Mode = "live" THEN run ELSE run + 1
     /\ npend' = IF Mode = "live" THEN npend ELSE npend + 1
     /\ sched' = IF Mode = "live" THEN sched ELSE Append(sched, 0)
-    /\ UNCHANGED <<sid, delivered, consumed, pc, eofAt, buf, fill, got, coin>>
+    /\ fill' = IF Mutant = "forget" THEN <<>> ELSE fill
+    /\ UNCHANGED <<sid, delivered, consumed, pc, eofAt, buf, got, coin>>
 
 (* the transport closes: the pending request can never be filled, the read fails *)
 Eof ==
@@ -133,7 +137,8 @@ Take ==
     /\ Reading /\ buf # <<>> /\ Len(fill) < Need
     /\ LET n == Min(Need - Len(fill), Len(buf)) IN
          /\ fill' = fill \o SubSeq(buf, 1, n)
-         /\ buf' = SubSeq(buf, n + 1, Len(buf))
+         /\ buf' = IF Mutant = "drop" /\ n < Len(buf) THEN SubSeq(buf, n + 2, Len(buf))
+                   ELSE SubSeq(buf, n + 1, Len(buf))
     /\ UNCHANGED <<sid, delivered, consumed, pc, pollState, eofAt, got, run, npend, sched, coin>>
 
 CompleteRead ==
@@ -153,7 +158,8 @@ NextSubject ==
     /\ delivered' = 0 /\ consumed' = 0 /\ pc' = 1 /\ pollState' = "start"
     /\ buf' = <<>> /\ fill' = <<>> /\ got' = <<>> /\ run' = 0 /\ npend' = 0 /\ sched' = <<>>
 
-Transport == (\E k \in ChunkChoices(Limit - delivered) : Deliver(k)) \/ Eof
+DeliverAny == \E k \in ChunkChoices(Limit - delivered) : Deliver(k)
+Transport == DeliverAny \/ Eof
 Reader    == Take \/ CompleteRead
 Next      == Transport \/ ReturnPending \/ Reader \/ NextSubject
 
@@ -201,7 +207,7 @@ RECURSIVE SumSeq(_)
 SumSeq(s) == IF s = <<>> THEN 0 ELSE Head(s) + SumSeq(Tail(s))
 SchedShape == (Terminal /\ Mode # "live") => SumSeq(sched) = Limit
 
-InOrder == [][delivered' >= delivered /\ (sid' = sid => consumed' >= consumed)]_vars
+InOrder == [][sid' = sid => (delivered' >= delivered /\ consumed' >= consumed /\ pc' >= pc)]_vars
 
 Termination == <>Terminal
 
